@@ -8,14 +8,18 @@ import sys
 VERIF = os.path.dirname(os.path.dirname(os.path.abspath(__file__)))
 SD = os.path.join(VERIF, 'seeded')
 
-# seventh wave: every seed but C16_w6A was reported on the first run by the rules that report it now
-SEEDS = ['C02_w6A', 'C03_w6A', 'C04_w6A', 'C10_w6A', 'C11_w6A', 'C11_w6B', 'C14_w6A', 'C16_w6A', 'C16_w6B', 'C19_w6A']
-MISSED = {'C16_w6A'}
+# seventh wave: python-only changes in WHICH PATHS perform a derivation / refresh / reset
+SEEDS = ['C07_w7A', 'C09_w7A', 'C13_w7A', 'C17_w7A', 'C18_w7A', 'C20_w7A']
+MISSED = {'C20_w7A'}
+FIRST = {'C17_w7A': {'C16': ['exit 2: anchor "branch building F from (E11, nu, h)" no longer found']},
+         'C18_w7A': {'C18': ['exit 2: floor "prescribed amplitudes found in _rebuild" (0 < 3)']}}
 ADDED = {
-    'C16_w6A': 'missed at first (no check looked at which paths of ConeCyl._rebuild refresh the derived radius; R18.4 only decided the right-hand sides); '
-               'R16.9 / R20.8 added: for each of the 16 truthiness states of (r1, r2, L, H) on entry every non-raising path executes a closure store of r1 or r2 after the store of sina',
+    'C20_w7A': 'missed at first (the laminate of Panel._rebuild re-read only when `self.lam is None or list(self.lam.stack) != list(self.stack)`); '
+               'R20.9 added: a store of self.X that only runs under a test reading self.X itself must be one of the tabled default-filling instances',
+    'C17_w7A': 'reported at first only as analysis-broken (exit 2, the anchor of R16.8 had moved under a new guard); R20.9 now reports the compute-once guard on self.F itself',
+    'C18_w7A': 'reported at first only as analysis-broken (exit 2, floor of R18.2); R20.9 now reports the compute-once guard on self.excluded_dofs itself',
 }
-PREBUILT = {'C02_w6A', 'C03_w6A', 'C04_w6A', 'C10_w6A', 'C14_w6A', 'C19_w6A', 'C11_w6B', 'C16_w6B'}
+PREBUILT = set()
 
 
 def main():
@@ -36,7 +40,7 @@ def main():
         kernel = sid in PREBUILT
         meta = {
             'id': sid, 'property': sid[:3], 'variant': sid[-1], 'wave': 7,
-            'author': 'independent sub-agent given only the property text and its own scratch worktree, steered towards rarely used models / flags / sub-interval and numerical routes, two-site and stale-state changes; nothing from /verif',
+            'author': 'independent sub-agent given only the property text and its own scratch worktree, steered towards pure-Python changes in which paths of an orchestration routine perform a derivation, refresh, reset or reduction (compute-once guards, resets moved, early exits), disguised as tidy-ups; nothing from /verif',
             'base_commit': '36323a0',
             'clause_broken': am.get('clause_broken'), 'files_changed': am.get('files_changed'),
             'what_it_needs_to_manifest': am.get('what_it_needs_to_manifest'), 'why_existing_tests_miss_it': am.get('why_existing_tests_miss_it'),
@@ -45,7 +49,7 @@ def main():
                         if kernel else 'python-only: fresh scratch worktree (built extensions copied in), demo on pristine, git apply patch.diff, demo again, full pinned suite'),
                 'demo_on_pristine_rc': rc('demo_pristine.rc'), 'demo_with_change_rc': rc('demo_changed.rc'), 'suite_with_change': suite},
             'caught_by': sorted(res), 'rules_reporting': {p: v['rules'] for p, v in sorted(res.items())},
-            'reported_as_the_checks_stood': {} if sid in MISSED else {p: v['rules'] for p, v in sorted(res.items())},
+            'reported_as_the_checks_stood': {} if sid in MISSED else FIRST.get(sid, {p: v['rules'] for p, v in sorted(res.items()) if not (sid in ('C17_w7A', 'C18_w7A') and p == 'C20')}),
             'static_run': 'tools/seed_matrix.py on the final tree',
             'history': ADDED.get(sid, 'reported from the start'),
         }
